@@ -197,7 +197,7 @@ theorem tcp_any_segmentation (segs : List Bytes) :
       match protoTbl.searchNext baseState segs.flatten with
       | .error e => .error e
       | .ok (id, st', _) => .ok (id, st') :=
-  feedSegs_eq segs baseState (by rw [proto_matchLimit]; decide)
+  feedSegs_eq segs baseState proto_base_lt
 
 /-- … and therefore identifies the first signature completed by the reassembled leading bytes -/
 theorem tcp_any_segmentation_ref (segs : List Bytes) (h : shadowed segs.flatten = false) :
